@@ -183,7 +183,13 @@ void Runner<A>::doReject(const sim::Op &op) {
     curOp = "reject:" + en.name;
     if (env.trace) fprintf(stderr, "  reject %s a=%u b=%u flag=%d (n=%u)\n", cell.c_str(), a, b, (int)flag, n);
     const uint64_t before = sweepDigest(*g, m);
-    if (!pending.empty()) return; // state already wrong: charged by the sweep oracles
+    if (!pending.empty()) {
+        // state already wrong: charged by the sweep oracles - unless it only concerns hidden state of absent pairs and belongs
+        // to another property, in which case the rejected call is still made
+        const bool mine = [&] { for (auto &v : pending) if (v.prop == plan.profile) return true; return false; }();
+        if (!onlyAbsentPairMismatches() || mine) return;
+        settle();
+    }
     // operator== sees state no other observer can address (e.g. a map entry under an out-of-range key): a copy taken before
     // the rejected call must still compare equal afterwards
     std::unique_ptr<G> twin(m.n <= 128 ? new G(*g) : nullptr);
